@@ -28,7 +28,9 @@ def recheck_generated(gen_rel, text, dependents, what):
     """Re-check `dependents` (paths relative to coq/, in build order) against a regenerated coq/<gen_rel> without touching coq/:
     a scratch copy of the development made of symbolic links to the sources and compiled files, in which the generated file
     and its dependents are real files compiled afresh.  Cached by content.  -> dict(ok, detail, dir, output)"""
-    key = hashlib.sha256((gen_rel + text + "".join(open(os.path.join(common.COQ, f)).read() for f in dependents)).encode()).hexdigest()[:16]
+    # keyed by the regenerated text and by every source of the development (the linked .vo files must be the ones the fresh files are compiled against)
+    srcs = sorted(glob.glob(os.path.join(common.COQ, "*", "*.v")))
+    key = hashlib.sha256((gen_rel + text + "|".join(dependents) + "".join(open(f).read() for f in srcs if not f.endswith(gen_rel))).encode()).hexdigest()[:16]
     d = os.path.join(common.CACHE, "regen", key); res = os.path.join(d, "result.json")
     if os.path.exists(res): return json.load(open(res))
     if os.path.isdir(d): shutil.rmtree(d, ignore_errors=True)
